@@ -17,7 +17,7 @@ package grammar
 // whose match values have an empty regexp cache.
 //@ func Parse(filename, b, opts) (val, err)
 //@   trusted
-//@   requires allCacheOK()
+//@   requires allCacheOK() && wfGOpts(opts)
 //@   ensures (err == nil) == parseAccepts(b, gBudget(opts))
 //@   ensures err == nil ==> val != nil && is[Expression](val) && wf(val) && val == parseTree(b)
 //@   ensures allCacheOK()
@@ -27,3 +27,175 @@ package grammar
 //@ func MaxExpressions(maxExprCnt) (res)
 //@   ensures[C11] res == fn.grammar.MaxExpressions$1(maxExprCnt)
 //@   assigns nothing
+
+// ---- C11: the parser budget. Every engine method keeps ExprCnt <= maxExprCnt,
+// never decreases ExprCnt and never changes the budget; parseExpr adds exactly
+// one step before dispatching and panics (errMaxExprCnt) only when the step
+// exceeds the budget. Everything else in the engine is abstracted: the heap
+// keys a helper may write are inferred from its code.
+
+//@ func parser.parseExpr(p, expr) (val, ok)
+//@   requires p != nil && p.Stats != nil && p.Stats.ExprCnt <= p.maxExprCnt
+//@   assume p.Stats.ExprCnt < 18446744073709551615
+//@   ensures[C11] budget: p.Stats == old(p.Stats) && p.maxExprCnt == old(p.maxExprCnt) && p.Stats.ExprCnt >= old(p.Stats.ExprCnt) && p.Stats.ExprCnt <= p.maxExprCnt
+//@   ensures[C11] step: p.Stats.ExprCnt >= old(p.Stats.ExprCnt) + 1
+//@   panics_only_if[C11] exceeded: old(p.Stats.ExprCnt) + 1 > p.maxExprCnt || !knownExprTag(dyn(expr))
+//@   may_panic
+
+//@ func parser.parseRule(p, rule) (val, ok)
+//@   requires p != nil && p.Stats != nil && p.Stats.ExprCnt <= p.maxExprCnt
+//@   ensures[C11] budget: p.Stats == old(p.Stats) && p.maxExprCnt == old(p.maxExprCnt) && p.Stats.ExprCnt >= old(p.Stats.ExprCnt) && p.Stats.ExprCnt <= p.maxExprCnt
+//@   may_panic
+
+//@ func parser.parseActionExpr(p, act) (val, ok)
+//@   requires p != nil && p.Stats != nil && p.Stats.ExprCnt <= p.maxExprCnt
+//@   ensures[C11] budget: p.Stats == old(p.Stats) && p.maxExprCnt == old(p.maxExprCnt) && p.Stats.ExprCnt >= old(p.Stats.ExprCnt) && p.Stats.ExprCnt <= p.maxExprCnt
+//@   may_panic
+
+//@ func parser.parseAndCodeExpr(p, and) (val, ok)
+//@   requires p != nil && p.Stats != nil && p.Stats.ExprCnt <= p.maxExprCnt
+//@   ensures[C11] budget: p.Stats == old(p.Stats) && p.maxExprCnt == old(p.maxExprCnt) && p.Stats.ExprCnt >= old(p.Stats.ExprCnt) && p.Stats.ExprCnt <= p.maxExprCnt
+//@   may_panic
+
+//@ func parser.parseAndExpr(p, and) (val, ok)
+//@   requires p != nil && p.Stats != nil && p.Stats.ExprCnt <= p.maxExprCnt
+//@   ensures[C11] budget: p.Stats == old(p.Stats) && p.maxExprCnt == old(p.maxExprCnt) && p.Stats.ExprCnt >= old(p.Stats.ExprCnt) && p.Stats.ExprCnt <= p.maxExprCnt
+//@   may_panic
+
+//@ func parser.parseAnyMatcher(p, any) (val, ok)
+//@   requires p != nil && p.Stats != nil && p.Stats.ExprCnt <= p.maxExprCnt
+//@   ensures[C11] budget: p.Stats == old(p.Stats) && p.maxExprCnt == old(p.maxExprCnt) && p.Stats.ExprCnt >= old(p.Stats.ExprCnt) && p.Stats.ExprCnt <= p.maxExprCnt
+//@   may_panic
+
+//@ func parser.parseCharClassMatcher(p, chr) (val, ok)
+//@   requires p != nil && p.Stats != nil && p.Stats.ExprCnt <= p.maxExprCnt
+//@   ensures[C11] budget: p.Stats == old(p.Stats) && p.maxExprCnt == old(p.maxExprCnt) && p.Stats.ExprCnt >= old(p.Stats.ExprCnt) && p.Stats.ExprCnt <= p.maxExprCnt
+//@   may_panic
+//@   loop 1:
+//@     invariant p.Stats == old(p.Stats) && p.maxExprCnt == old(p.maxExprCnt) && p.Stats.ExprCnt >= old(p.Stats.ExprCnt) && p.Stats.ExprCnt <= p.maxExprCnt && p.Stats != nil
+//@   loop 2:
+//@     invariant p.Stats == old(p.Stats) && p.maxExprCnt == old(p.maxExprCnt) && p.Stats.ExprCnt >= old(p.Stats.ExprCnt) && p.Stats.ExprCnt <= p.maxExprCnt && p.Stats != nil
+//@   loop 3:
+//@     invariant p.Stats == old(p.Stats) && p.maxExprCnt == old(p.maxExprCnt) && p.Stats.ExprCnt >= old(p.Stats.ExprCnt) && p.Stats.ExprCnt <= p.maxExprCnt && p.Stats != nil
+
+//@ func parser.parseChoiceExpr(p, ch) (val, ok)
+//@   requires p != nil && p.Stats != nil && p.Stats.ExprCnt <= p.maxExprCnt
+//@   ensures[C11] budget: p.Stats == old(p.Stats) && p.maxExprCnt == old(p.maxExprCnt) && p.Stats.ExprCnt >= old(p.Stats.ExprCnt) && p.Stats.ExprCnt <= p.maxExprCnt
+//@   may_panic
+//@   loop 1:
+//@     invariant p.Stats == old(p.Stats) && p.maxExprCnt == old(p.maxExprCnt) && p.Stats.ExprCnt >= old(p.Stats.ExprCnt) && p.Stats.ExprCnt <= p.maxExprCnt && p.Stats != nil
+
+//@ func parser.parseLabeledExpr(p, lab) (val, ok)
+//@   requires p != nil && p.Stats != nil && p.Stats.ExprCnt <= p.maxExprCnt
+//@   ensures[C11] budget: p.Stats == old(p.Stats) && p.maxExprCnt == old(p.maxExprCnt) && p.Stats.ExprCnt >= old(p.Stats.ExprCnt) && p.Stats.ExprCnt <= p.maxExprCnt
+//@   may_panic
+
+//@ func parser.parseLitMatcher(p, lit) (val, ok)
+//@   requires p != nil && p.Stats != nil && p.Stats.ExprCnt <= p.maxExprCnt
+//@   ensures[C11] budget: p.Stats == old(p.Stats) && p.maxExprCnt == old(p.maxExprCnt) && p.Stats.ExprCnt >= old(p.Stats.ExprCnt) && p.Stats.ExprCnt <= p.maxExprCnt
+//@   may_panic
+//@   loop 1:
+//@     invariant p.Stats == old(p.Stats) && p.maxExprCnt == old(p.maxExprCnt) && p.Stats.ExprCnt >= old(p.Stats.ExprCnt) && p.Stats.ExprCnt <= p.maxExprCnt && p.Stats != nil
+
+//@ func parser.parseNotCodeExpr(p, not) (val, ok)
+//@   requires p != nil && p.Stats != nil && p.Stats.ExprCnt <= p.maxExprCnt
+//@   ensures[C11] budget: p.Stats == old(p.Stats) && p.maxExprCnt == old(p.maxExprCnt) && p.Stats.ExprCnt >= old(p.Stats.ExprCnt) && p.Stats.ExprCnt <= p.maxExprCnt
+//@   may_panic
+
+//@ func parser.parseNotExpr(p, not) (val, ok)
+//@   requires p != nil && p.Stats != nil && p.Stats.ExprCnt <= p.maxExprCnt
+//@   ensures[C11] budget: p.Stats == old(p.Stats) && p.maxExprCnt == old(p.maxExprCnt) && p.Stats.ExprCnt >= old(p.Stats.ExprCnt) && p.Stats.ExprCnt <= p.maxExprCnt
+//@   may_panic
+
+//@ func parser.parseOneOrMoreExpr(p, expr) (val, ok)
+//@   requires p != nil && p.Stats != nil && p.Stats.ExprCnt <= p.maxExprCnt
+//@   ensures[C11] budget: p.Stats == old(p.Stats) && p.maxExprCnt == old(p.maxExprCnt) && p.Stats.ExprCnt >= old(p.Stats.ExprCnt) && p.Stats.ExprCnt <= p.maxExprCnt
+//@   may_panic
+//@   loop 1:
+//@     invariant p.Stats == old(p.Stats) && p.maxExprCnt == old(p.maxExprCnt) && p.Stats.ExprCnt >= old(p.Stats.ExprCnt) && p.Stats.ExprCnt <= p.maxExprCnt && p.Stats != nil
+
+//@ func parser.parseRecoveryExpr(p, recover) (val, ok)
+//@   requires p != nil && p.Stats != nil && p.Stats.ExprCnt <= p.maxExprCnt
+//@   ensures[C11] budget: p.Stats == old(p.Stats) && p.maxExprCnt == old(p.maxExprCnt) && p.Stats.ExprCnt >= old(p.Stats.ExprCnt) && p.Stats.ExprCnt <= p.maxExprCnt
+//@   may_panic
+
+//@ func parser.parseRuleRefExpr(p, ref) (val, ok)
+//@   requires p != nil && p.Stats != nil && p.Stats.ExprCnt <= p.maxExprCnt
+//@   ensures[C11] budget: p.Stats == old(p.Stats) && p.maxExprCnt == old(p.maxExprCnt) && p.Stats.ExprCnt >= old(p.Stats.ExprCnt) && p.Stats.ExprCnt <= p.maxExprCnt
+//@   may_panic
+
+//@ func parser.parseSeqExpr(p, seq) (val, ok)
+//@   requires p != nil && p.Stats != nil && p.Stats.ExprCnt <= p.maxExprCnt
+//@   ensures[C11] budget: p.Stats == old(p.Stats) && p.maxExprCnt == old(p.maxExprCnt) && p.Stats.ExprCnt >= old(p.Stats.ExprCnt) && p.Stats.ExprCnt <= p.maxExprCnt
+//@   may_panic
+//@   loop 1:
+//@     invariant p.Stats == old(p.Stats) && p.maxExprCnt == old(p.maxExprCnt) && p.Stats.ExprCnt >= old(p.Stats.ExprCnt) && p.Stats.ExprCnt <= p.maxExprCnt && p.Stats != nil
+
+//@ func parser.parseThrowExpr(p, expr) (val, ok)
+//@   requires p != nil && p.Stats != nil && p.Stats.ExprCnt <= p.maxExprCnt
+//@   ensures[C11] budget: p.Stats == old(p.Stats) && p.maxExprCnt == old(p.maxExprCnt) && p.Stats.ExprCnt >= old(p.Stats.ExprCnt) && p.Stats.ExprCnt <= p.maxExprCnt
+//@   may_panic
+//@   loop 1:
+//@     invariant p.Stats == old(p.Stats) && p.maxExprCnt == old(p.maxExprCnt) && p.Stats.ExprCnt >= old(p.Stats.ExprCnt) && p.Stats.ExprCnt <= p.maxExprCnt && p.Stats != nil
+
+//@ func parser.parseZeroOrMoreExpr(p, expr) (val, ok)
+//@   requires p != nil && p.Stats != nil && p.Stats.ExprCnt <= p.maxExprCnt
+//@   ensures[C11] budget: p.Stats == old(p.Stats) && p.maxExprCnt == old(p.maxExprCnt) && p.Stats.ExprCnt >= old(p.Stats.ExprCnt) && p.Stats.ExprCnt <= p.maxExprCnt
+//@   may_panic
+//@   loop 1:
+//@     invariant p.Stats == old(p.Stats) && p.maxExprCnt == old(p.maxExprCnt) && p.Stats.ExprCnt >= old(p.Stats.ExprCnt) && p.Stats.ExprCnt <= p.maxExprCnt && p.Stats != nil
+
+//@ func parser.parseZeroOrOneExpr(p, expr) (val, ok)
+//@   requires p != nil && p.Stats != nil && p.Stats.ExprCnt <= p.maxExprCnt
+//@   ensures[C11] budget: p.Stats == old(p.Stats) && p.maxExprCnt == old(p.maxExprCnt) && p.Stats.ExprCnt >= old(p.Stats.ExprCnt) && p.Stats.ExprCnt <= p.maxExprCnt
+//@   may_panic
+
+// ---- C11 / C10: how the budget and the recover flag reach the parser ----------
+//@ func newParser(filename, b, opts) (p)
+//@   requires wfGOpts(opts)
+//@   ensures[C11] p != nil && p.Stats != nil && p.Stats.ExprCnt == 0
+//@   ensures[C11] budget: p.maxExprCnt == ite(gBudget(opts) == 0, 18446744073709551615, gBudget(opts))
+//@   ensures[C10] recover: p.recover == gFoldRecover(opts, true)
+//@   may_panic
+//@   fresh
+
+//@ func parser.setOptions(p, opts) ()
+//@   requires p != nil && wfGOpts(opts)
+//@   ensures[C11] p.maxExprCnt == gFoldMax(opts, old(p.maxExprCnt)) && p.Stats == old(p.Stats) && heap(grammar.Stats.ExprCnt) == old(heap(grammar.Stats.ExprCnt))
+//@   ensures[C10] p.recover == gFoldRecover(opts, old(p.recover))
+//@   assigns grammar.parser.maxExprCnt@p, grammar.parser.entrypoint@p, grammar.parser.allowInvalidUTF8@p, grammar.parser.recover@p, grammar.current.globalStore@p
+//@   loop 1:
+//@     invariant -1 <= rangeindex && rangeindex < len(opts)
+//@     invariant[C11] p.maxExprCnt == gFoldMax(opts[0:rangeindex+1], old(p.maxExprCnt)) && p.Stats == old(p.Stats)
+//@     invariant[C10] p.recover == gFoldRecover(opts[0:rangeindex+1], old(p.recover))
+
+//@ func MaxExpressions$1(p) (old)
+//@   requires p != nil
+//@   ensures[C11] p.maxExprCnt == maxExprCnt
+//@   assigns grammar.parser.maxExprCnt@p
+//@ func Entrypoint(ruleName) (res)
+//@   ensures res == fn.grammar.Entrypoint$1(ruleName)
+//@   assigns nothing
+//@ func Entrypoint$1(p) (old)
+//@   requires p != nil
+//@   may_panic
+//@   assigns grammar.parser.entrypoint@p
+//@ func AllowInvalidUTF8(b) (res)
+//@   ensures res == fn.grammar.AllowInvalidUTF8$1(b)
+//@   assigns nothing
+//@ func AllowInvalidUTF8$1(p) (old)
+//@   requires p != nil
+//@   assigns grammar.parser.allowInvalidUTF8@p
+//@ func Recover(b) (res)
+//@   ensures[C10] res == fn.grammar.Recover$1(b)
+//@   assigns nothing
+//@ func Recover$1(p) (old)
+//@   requires p != nil
+//@   ensures[C10] p.recover == b
+//@   assigns grammar.parser.recover@p
+//@ func GlobalStore(key, value) (res)
+//@   assigns nothing
+//@ func GlobalStore$1(p) (old)
+//@   requires p != nil
+//@   may_panic
+//@   assigns grammar.current.globalStore@p
